@@ -626,6 +626,22 @@ Section EngineProofs.
     pose proof (group_isolation g now r Hk Hs Hm Hd) as HG.
     destruct (g_keys g) as [|kv ks]; [congruence|]. intro H; inversion H; subst. exact HG.
   Qed.
+  (* the method dimension at the router: a strict group whose route is registered with guarded methods only
+     never runs its handler for a request that does not verify -- whatever the method: a registered method is a
+     guarded one (403), any other method is not dispatched to the route at all (405 from the router) *)
+  Lemma method_dimension groups i g registered now r o :
+    nth_error groups i = Some g -> g_keys g <> [] -> g_strict g = true ->
+    (forall m, existsb (bytes_eqb m) registered = true -> existsb (bytes_eqb m) checked_methods = true) ->
+    (forall k, alookup bytes_eqb (announced_fp r) (decryptor_map (g_keys g)) = Some k ->
+               rsa_key_dec k (announced_secret r) = None) ->
+    route_dispatch registered r (egate groups i now r) = Some o ->
+    s_ran o = false /\ (s_status o = 403 \/ s_status o = 405).
+  Proof.
+    intros Hn Hk Hs Hreg Hd. unfold route_dispatch.
+    destruct (existsb (bytes_eqb (r_method r)) registered) eqn:E.
+    - intro Ho. destruct (engine_isolation groups i g now r o Hn Hk Hs (Hreg _ E) Hd Ho) as [H1 H2]. auto.
+    - intro Ho. inversion Ho; subst. simpl. auto.
+  Qed.
 End EngineProofs.
 
 (* the path that is routed is not the signed one when X-Request-Uri is present *)
@@ -883,4 +899,31 @@ Lemma rejections_no_breaker_failures codes :
 Proof.
   unfold breaker_failures. induction codes as [|c r IH]; intro H; [reflexivity|]. cbn [filter].
   destruct (H c (or_introl eq_refl)) as [E|E]; rewrite E; (cbn; apply IH; intros c' Hin; apply H; right; assumption).
+Qed.
+
+(* ---- configuration matrix through rpc.NewServer ---- *)
+Lemma config_matrix cache store app tok :
+  app <> 0%N -> tok <> 0%N -> alookup N.eqb app cache = None ->
+  let md := Some ([app], [tok]) in
+  (* Auth off: everything is accepted, whatever StrictControl *)
+  (forall strict md', snd (server_config_gate false strict cache store md') = rpc_ok) /\
+  (* Auth on *)
+  (forall strict, snd (server_config_gate true strict cache store None) = rpc_unauthenticated) /\
+  (forall strict t, store app = SVal t ->
+     snd (server_config_gate true strict cache store md) = if (tok =? t)%N then rpc_ok else rpc_unauthenticated) /\
+  (store app = SNil \/ store app = SFail ->
+     snd (server_config_gate true true cache store md) = rpc_internal /\
+     snd (server_config_gate true false cache store md) = rpc_ok).
+Proof.
+  intros Ha Ht Hc. cbv zeta. unfold server_config_gate.
+  assert (md_creds (Some ([app], [tok])) = Some (app, tok)) as Hm.
+  { simpl. apply N.eqb_neq in Ha, Ht. rewrite Ha, Ht. reflexivity. }
+  split; [reflexivity|]. split; [reflexivity|]. split.
+  - intros strict t Hs. destruct (rpc_table strict cache store) as [_ T2].
+    specialize (T2 _ app tok Hm). rewrite Hc, Hs in T2. rewrite T2. reflexivity.
+  - intros Hs. split.
+    + destruct (rpc_table true cache store) as [_ T2]. specialize (T2 _ app tok Hm). rewrite Hc in T2.
+      destruct Hs as [Hs|Hs]; rewrite Hs in T2; rewrite T2; reflexivity.
+    + destruct (rpc_table false cache store) as [_ T2]. specialize (T2 _ app tok Hm). rewrite Hc in T2.
+      destruct Hs as [Hs|Hs]; rewrite Hs in T2; rewrite T2; reflexivity.
 Qed.
